@@ -316,6 +316,7 @@ func (w *c15Watch) wants(ev c15Ev) bool { return c15Match(ev.key, w.prefix, !w.e
 // ---- goroutine states
 
 const c15Pkg = "github.com/gotid/god/lib/discov/internal."
+const c15RunFn = "github.com/gotid/god/lib/threading.(*RoutineGroup).Run"
 
 type c15G struct {
 	state string // select, chan receive, running, runnable, semacquire, sync.Mutex.Lock, ...
@@ -374,7 +375,9 @@ func c15Goroutines() []c15G {
 func c15WatchersIdle(min int) bool {
 	n := 0
 	for _, g := range c15Goroutines() {
-		if !strings.Contains(g.text, c15Pkg) {
+		// goroutines started through threading.RoutineGroup.Run (the watch loops) count
+		// even before they have executed their first instruction
+		if !strings.Contains(g.text, c15Pkg) && !strings.Contains(g.text, c15RunFn) {
 			continue
 		}
 		if (g.state != "select" && g.state != "chan receive") || !strings.HasPrefix(g.top, c15Pkg) {
@@ -383,4 +386,16 @@ func c15WatchersIdle(min int) bool {
 		n++
 	}
 	return n >= min
+}
+
+// c15TrySend hands a response to a watcher only if its goroutine is parked on
+// the channel right now. Called when every watch goroutine is known to be
+// parked, it tells a live watcher (accepts) from one whose goroutine is gone.
+func c15TrySend(w *c15Watch, resp clientv3.WatchResponse) bool {
+	select {
+	case w.ch <- resp:
+		return true
+	default:
+		return false
+	}
 }
